@@ -63,3 +63,60 @@ Example C14_wrap_300 :
     (enc_descriptor (set_Unknown (desc_hdr 3 0) {| DescriptorUnknown_Content := repeat 170 300; DescriptorUnknown_Tag := 3 |}))
   = Ok ([3; 44], 302).
 Proof. vm_compute. reflexivity. Qed.
+
+(* (b) parseDescriptors never shifts what follows.  First with the body parser abstracted: ANY function that
+   returns Ok/Err/Panic and leaves the byte slice of the iterator alone (body_pres).  On success the result is
+   tlv_parse: the loop is split at tag/length boundaries only — entry k starts where entry k-1 started plus 2
+   plus its declared length — and descriptor k is what the body parser returns when it is run on the untouched
+   buffer at entry k's own body with entry k's own declared end, independently of what the earlier bodies
+   consumed; the iterator is left at the end of the last entry. *)
+Theorem C14_tlv_any_body : forall body bs pos ds i', body_pres body ->
+  parse_descriptors_with body (mk_iter bs pos) = Ok (ds, i') ->
+  0 <= pos /\ pos + 2 <= zlen bs /\ ibs i' = bs /\
+  tlv_parse desc_hdr body bs (pos + 2 + loop_length_at bs pos) (pos + 2) ds (ioff i').
+Proof. exact parse_descriptors_tlv. Qed.
+Print Assumptions C14_tlv_any_body.
+
+(* instantiated with the 23 typed parsers, unknown and user-defined tags: the tags and lengths returned are
+   exactly the TLV entries of the loop (tlv_chain is a function of the bytes alone: tlv_chain_det), and the
+   iterator ends at the first entry boundary at or after the declared end of the loop *)
+Theorem C14_tlv : forall bs pos ds i', bytes_ok bs ->
+  parse_descriptors (mk_iter bs pos) = Ok (ds, i') ->
+  let endp := pos + 2 + loop_length_at bs pos in
+  ibs i' = bs /\
+  tlv_parse desc_hdr parse_descriptor_body bs endp (pos + 2) ds (ioff i') /\
+  exists es, tlv_chain bs endp (pos + 2) es (ioff i') /\
+             map (fun d => (Descriptor_Tag d, Descriptor_Length d)) ds = map (fun e => (snd (fst e), snd e)) es /\
+             endp <= ioff i'.
+Proof. exact parse_descriptors_framing. Qed.
+Print Assumptions C14_tlv.
+
+Theorem C14_tlv_entries_unique : forall bs endp pos es fin, tlv_chain bs endp pos es fin ->
+  forall es' fin', tlv_chain bs endp pos es' fin' -> es' = es /\ fin' = fin.
+Proof. exact tlv_chain_det. Qed.
+Print Assumptions C14_tlv_entries_unique.
+
+(* exactly 2 + loop length bytes are consumed iff the last entry ends at the declared end of the loop *)
+Theorem C14_tlv_consumed : forall bs endp pos es fin, tlv_chain bs endp pos es fin ->
+  (es = [] /\ fin = pos) \/ (es <> [] /\ exists p t l, last es (0, 0, 0) = (p, t, l) /\ fin = p + 2 + l).
+Proof. exact tlv_chain_exact. Qed.
+Print Assumptions C14_tlv_consumed.
+
+(* an AVC video descriptor (4 body bytes) declared with length 2: its parser reads into the next entry, yet
+   the stream identifier that follows is decoded from its own boundary *)
+Example C14_tlv_example :
+  match parse_descriptors (new_iter [240; 7; 40; 2; 1; 2; 82; 1; 9]) with
+  | Ok ([a; s], i) => (Descriptor_Tag a, Descriptor_Length a, Descriptor_StreamIdentifier s, ioff i)
+                      = (40, 2, Some {| DescriptorStreamIdentifier_ComponentTag := 9 |}, 9)
+  | _ => False
+  end.
+Proof. vm_compute. reflexivity. Qed.
+
+(* an entry that overruns the declared loop end (loop length 2, entry of 2 + 5 bytes): the parser follows the
+   entry's own length, the iterator ends at 9, beyond 2 + 2 *)
+Example C14_tlv_overrun_example :
+  match parse_descriptors (new_iter [240; 2; 82; 5; 1; 2; 3; 4; 5; 77]) with
+  | Ok ([s], i) => (Descriptor_Length s, ioff i) = (5, 9)
+  | _ => False
+  end.
+Proof. vm_compute. reflexivity. Qed.
